@@ -240,12 +240,13 @@ def kani_playback(ws, pkg, features, harness, modspecs=(), timeout=900):
             continue
         path = os.path.join(ws, "source", target)
         txt = open(path).read()
-        modtxt = open(src).read().rstrip()
-        k = txt.rfind(modtxt)
-        if k < 0 or not modtxt.endswith("}"):
+        # the appended module starts with `mod <short> {`: put the test right after that header line
+        hm = None
+        for hm in re.finditer(r"^[ \t]*(?:pub(?:\([a-z]+\))?\s+)?mod %s \{[ \t]*\n" % re.escape(short), txt, re.M):
+            pass
+        if hm is None:
             continue
-        end = k + len(modtxt) - 1
-        txt = txt[:end] + "\n" + test_src + "\n" + txt[end:]
+        txt = txt[:hm.end()] + "#[allow(unused_imports)] use super::*;\n" * 0 + test_src + "\n" + txt[hm.end():]
         open(path, "w").write(txt)
         info["generated_test_file"] = "source/" + target
         placed = True
